@@ -116,7 +116,7 @@ func OpenDir(baseDir string) (*Bundle, error) {
 			ret.registryPackageVersionDeprecations[pkgAddr] = deprecations
 		}
 		for versionStr, mv := range rpm.Versions {
-			version, err := versions.ParseVersion(versionStr)
+			version, err := parseManifestVersion(versionStr)
 			if err != nil {
 				return nil, fmt.Errorf("invalid registry package version %q: %w", versionStr, err)
 			}
@@ -406,4 +406,16 @@ func ExtractArchive(r io.Reader, targetDir string) (*Bundle, error) {
 		return nil, err
 	}
 	return OpenDir(targetDir)
+}
+
+// parseManifestVersion is [versions.ParseVersion], except that a number too
+// large for a version segment is reported as an error: the underlying parser
+// panics on it.
+func parseManifestVersion(s string) (v versions.Version, err error) {
+	defer func() {
+		if r := recover(); r != nil {
+			v, err = versions.Unspecified, fmt.Errorf("invalid version %q: %v", s, r)
+		}
+	}()
+	return versions.ParseVersion(s)
 }
